@@ -1,4 +1,5 @@
 import Proofs.FlowTop
+import Proofs.FlowDiv
 import Proofs.FlowSwitch
 
 /-!
@@ -163,18 +164,61 @@ theorem compile_correct_unique (s : Stmt) (hcore : Core s = true) (fuel : Nat) (
   rw [a] at b
   exact b.symm
 
-/-- `CompileCorrectFull` restricted to Core programs on which the structured semantics terminates.
-    Missing for the full statement: (1) switch (linear chain + jump table + fallthrough), range and backward
-    goto are in `compile`, `Flat.run` and `Ref.run` and are checked differentially against the real
-    interpreter and compiled Go on every run, but their simulation is not proved; (2) preservation of
-    divergence (a non-terminating Core program keeps the flat machine running forever) is not proved. -/
+/-- **Divergence is preserved** (Core fragment): if the structured semantics runs out of fuel `n`, the flat
+    machine is still running after `n - (1 + wt s)` steps (`wt s` = syntactic weight of the program).  Each loop
+    iteration of the structured semantics costs the machine at least one step (the back jump, or the `continue`
+    jump itself). -/
+theorem compile_diverges (s : Stmt) (hcore : Core s = true) (n : Nat) (frame : Frame)
+    (h : Ref.run s n frame = .timeout) :
+    Flat.run (compileTop s) (n - (1 + wt s)) frame = .timeout := by
+  unfold Ref.run at h
+  cases he : execFrom n s s ⟨[frame], []⟩ with
+  | timeout =>
+    exact ((div_all n).2.2.1 s _ (compileTop s) 0 funcCtx hcore he (CodeAt.self _)).timeout
+  | ok o st' =>
+    rw [he] at h
+    cases o <;> simp [finalOf] at h
+
+/-- a Core program diverges in the structured semantics iff its compiled code diverges on the flat machine -/
+theorem diverges_iff (s : Stmt) (hcore : Core s = true) (frame : Frame) :
+    (∀ n, Ref.run s n frame = .timeout) ↔ (∀ k, Flat.run (compileTop s) k frame = .timeout) := by
+  constructor
+  · intro h k
+    have := compile_diverges s hcore (k + (1 + wt s)) frame (h _)
+    simpa using this
+  · intro h n
+    cases hr : Ref.run s n frame with
+    | timeout => rfl
+    | done tr f =>
+      obtain ⟨k, hk⟩ := compile_correct s hcore n frame _ hr (by simp)
+      rw [h k] at hk; cases hk
+    | stuck =>
+      obtain ⟨k, hk⟩ := compile_correct s hcore n frame _ hr (by simp)
+      rw [h k] at hk; cases hk
+
+/-- **compile_correct, total form**: `CompileCorrectFull` holds for every Core program, without any
+    termination hypothesis: the flat machine finishes with result `r` iff the structured semantics does.
+    Together with `diverges_iff`: `Flat.run (compile s)` and `Ref.run s` have the same behaviour
+    (same event trace, same final frame, same termination kind) on the whole Core fragment.
+    Missing for the full statement: switch (linear chain + jump table + fallthrough), range and backward goto are in
+    `compile`, `Flat.run` and `Ref.run` and are checked differentially against the real interpreter and compiled
+    Go on every run, but their simulation is not proved; select / type switch are outside the model. -/
 theorem compile_correct_goto_range_select_partial (s : Stmt) (hcore : Core s = true) (frame : Frame)
-    (hterm : ∃ n, Ref.run s n frame ≠ .timeout) (r : Res) (hr : r ≠ .timeout) :
+    (r : Res) (hr : r ≠ .timeout) :
     (∃ k, Flat.run (compileTop s) k frame = r) ↔ (∃ n, Ref.run s n frame = r) := by
   constructor
   · rintro ⟨k, hk⟩
-    obtain ⟨n, hn⟩ := hterm
-    exact ⟨n, (compile_correct_unique s hcore n frame _ rfl hn k r hk hr).symm⟩
+    refine ⟨k + (1 + wt s), ?_⟩
+    cases hn : Ref.run s (k + (1 + wt s)) frame with
+    | timeout =>
+      have := compile_diverges s hcore _ frame hn
+      simp only [Nat.add_sub_cancel] at this
+      rw [this] at hk
+      exact absurd hk.symm hr
+    | done tr f =>
+      exact (compile_correct_unique s hcore _ frame _ hn (by simp) k r hk hr).symm
+    | stuck =>
+      exact (compile_correct_unique s hcore _ frame _ hn (by simp) k r hk hr).symm
   · rintro ⟨n, hn⟩
     exact compile_correct s hcore n frame r hn hr
 
